@@ -7,6 +7,7 @@ import (
 	"net/netip"
 	"sort"
 	"strings"
+	"sync"
 
 	dht "github.com/anacrolix/dht/v2"
 	"github.com/anacrolix/dht/v2/containers"
@@ -172,11 +173,66 @@ func runC18(r *Run) {
 			r.count(fmt.Sprintf("rnd %d %x", n, out), true)
 		}
 	}
+	// --- the same functions from several goroutines at once: a result depends on the arguments only ---
+	{
+		type job struct{ a, b [20]byte }
+		nG, per := 8, r.n(4000, 60000)
+		jobs := make([][]job, nG)
+		for g := range jobs {
+			for i := 0; i < per; i++ {
+				a := r.structuredID(base)
+				b := r.structuredID(a)
+				if a == b {
+					b[19] ^= 1
+				}
+				jobs[g] = append(jobs[g], job{a, b})
+			}
+		}
+		var wg sync.WaitGroup
+		for g := range jobs {
+			wg.Add(1)
+			go func(js []job) {
+				defer wg.Done()
+				defer func() {
+					if e := recover(); e != nil {
+						r.violation(fmt.Sprintf("panic under concurrent use: %v", e), map[string]interface{}{})
+					}
+				}()
+				bad := 0
+				for _, j := range js {
+					bi := dht.VerifBucketIndex(j.a, j.b)
+					if want := commonPrefixLen(j.a, j.b); bi != want && bad < 3 {
+						bad++
+						r.violation("bucket index is not the shared prefix length when computed from several goroutines at once", map[string]interface{}{"root": hx(j.a[:]), "id": hx(j.b[:]), "got": bi, "want": want, "goroutines": nG})
+					}
+					d := i160(j.a).Distance(i160(j.b))
+					var x [20]byte
+					for k := range x {
+						x[k] = j.a[k] ^ j.b[k]
+					}
+					if d.AsByteArray() != x && bad < 3 {
+						bad++
+						r.violation("distance is not the XOR when computed from several goroutines at once", map[string]interface{}{"a": hx(j.a[:]), "b": hx(j.b[:])})
+					}
+					la, lb := cand{hasID: true, id: j.a, ip: []byte{1, 2, 3, 4}, port: 1}, cand{hasID: true, id: j.b, ip: []byte{1, 2, 3, 4}, port: 2}
+					var t [20]byte
+					if la.ami().CloserThan(lb.ami(), i160(t)) != refCloser(t, la, lb) && bad < 3 {
+						bad++
+						r.violation("closer-than disagrees with the numeric order when computed from several goroutines at once", map[string]interface{}{"a": hx(j.a[:]), "b": hx(j.b[:])})
+					}
+				}
+			}(jobs[g])
+		}
+		wg.Wait()
+		r.hist(fmt.Sprintf("concurrent/%d-goroutines", nG))
+	}
 	// --- closer-than ---
 	nTrip := r.n(15000, 300000)
 	ipPool := [][]byte{r.randIP(0), r.randIP(0), r.randIP(1), r.randIP(2), {}, {1, 2, 3}}
 	ipPool = append(ipPool, append([]byte{}, ipPool[0]...))
 	ipPool[6][3] ^= 1
+	// the same host in its other representation
+	ipPool = append(ipPool, []byte(net.IP(ipPool[0]).To16()), []byte(net.IP(ipPool[6]).To16()))
 	for i := 0; i < nTrip; i++ {
 		if i%200 == 0 {
 			base = r.randID()
